@@ -9,6 +9,7 @@ C06.3  per-tag bit formulas and pair dispatch of SemTypeOps::{intersect,union,di
 C06.4  bdd_to_dnf_recursive: push/pop pairing and clause emission; dnf_to_bdd folds
 """
 import itertools
+import re
 import armalg
 from armalg import V, T, Fz, AND, OR, NOT, IFF, NODE, F, Val, Interp, Model, Uninterpretable, check_path
 from facts import walk
@@ -241,6 +242,23 @@ def check_semtype_ops(cx, rep, F_, model):
             rep.ob("C06.3", "%s/uninterpretable" % op, False, "cannot interpret %s: %s" % (gid, e), "%s:%s" % (f.file, e.line))
             continue
         all_f, some_f, arms, folds_true, line_all = res
+        # representation invariant of every SemType the operation builds: a tag is never both saturated (`all`) and
+        # present with a proper part.  The tags whose proper parts are paired (the bits handed to the pair iterator)
+        # must therefore exclude the saturated ones, otherwise stale proper data for a saturated tag survives and a
+        # later intersect / diff pairs it with the other operand
+        bits = getattr(semtype_op_model, "bits", [])
+        clash = None
+        for A1, S1, A2, S2 in itertools.product((False, True), repeat=4):
+            if (A1 and S1) or (A2 and S2):
+                continue
+            env0 = {"A_t1": A1, "S_t1": S1, "A_t2": A2, "S_t2": S2}
+            for b_ in bits:
+                if armalg.ev(b_, env0) and armalg.ev(all_f, env0):
+                    clash = dict(env0)
+        rep.ob("C06.3", "%s/paired-tags-exclude-saturated" % op, bool(bits) and clash is None,
+               "SemTypeOps::%s pairs proper parts for a tag that is already saturated in `all` (operand state %s): the result carries the tag both as saturated and with proper data (%s)" % (
+                   op, clash, "no bits found" if not bits else "bits = %s" % armalg.show(bits[0])),
+               "%s:%s" % (f.file, line_all), sample={"op": op, "paired_tags": [armalg.show(b_) for b_ in bits]})
         # per-tag abstract states of the two operands: (A, S) with not both; P = membership in the proper part
         spec = {"intersect": lambda a, b: a and b, "union": lambda a, b: a or b, "diff": lambda a, b: a and not b}[op]
         nrows = 0
@@ -309,6 +327,7 @@ def semtype_op_model(tree, op, hir=None):
     line_all = None
     arms = {}
     folds_true = False
+    bits_f = []
     for n in walk(body):
         if n["k"] == "LetStmt" and n["pat"]["k"] == "P.Binding" and n.get("init") is not None:
             nm = n["pat"]["name"]
@@ -344,6 +363,19 @@ def semtype_op_model(tree, op, hir=None):
                                     if x["k"] == "AssignOp" and x["op"] in ("BitOr", "BitOrAssign") and any(
                                             y["k"] == "Path" and y.get("lid") == plid for y in walk(x["l"])):
                                         folds_true = True
+        # the tags for which proper parts are paired: the `bits` given to the pair iterator (struct literal or ::new)
+        if n["k"] == "Struct" and (n.get("def") or "").endswith("SubTypePairIterator"):
+            for fl in n["fields"]:
+                if fl["name"] in ("bits", "selected_tags") or (fl["e"].get("ty") or "").endswith("u32"):
+                    try:
+                        bits_f.append(bit_formula(fl["e"], env))
+                    except Uninterpretable:
+                        pass
+        if n["k"] == "Call" and re.search(r"SubTypePairIterator(::<[^>]*>)?::new$", n.get("callee") or "") and n["args"]:
+            try:
+                bits_f.append(bit_formula(n["args"][-1], env))
+            except Uninterpretable:
+                pass
         if n["k"] == "Match" and n["scrut"]["k"] == "Tup" and len(n["scrut"]["es"]) == 2:
             for a in n["arms"]:
                 p = a["pat"]
@@ -366,6 +398,7 @@ def semtype_op_model(tree, op, hir=None):
     if all_f is None or some_f is None:
         raise Uninterpretable("all/some definitions not found", body.get("line"))
     # rename: self is t1
+    semtype_op_model.bits = [rename(b) for b in bits_f]
     return rename(all_f), rename(some_f), {k: v for k, v in arms.items() if "_" not in k}, folds_true, line_all
 
 
